@@ -44,6 +44,11 @@ class Harness:
     def oracle(self, cx, p, x, obs):
         return []
 
+    def witness_hints(self, cx, p, x):
+        """Optional: lists of z3 constraints tried (in order) when a concrete witness / counterexample is picked,
+        to steer the solver to inputs on which exact-real and binary64 arithmetic coincide (e.g. dyadic widths)."""
+        return []
+
 
 def exc_name(e):
     """Canonical exception name: first builtin class in the MRO (numpy-specific subclasses collapse)."""
